@@ -640,6 +640,47 @@ def write_context_admission(ct: Container, rep, rule="write-context-admission"):
     rep.floor(rule, n, 8)
 
 
+def position_not_by_truthiness(ct, rep, rule="removal-selects-type"):
+    """A table position obtained as `next((n for n, e in enumerate(..) if ..), None)` (or a default of that kind) is absent iff it
+    `is None`: a truthiness test takes position 0 - the first slot, the only block of a one-block file - for "not found"."""
+    n = 0
+    for f in ct.tdf.all_funcs():
+        fn = f.node
+        idx = set()
+        for a in walk_no_nested(fn):
+            if isinstance(a, ast.Assign) and len(a.targets) == 1 and isinstance(a.targets[0], ast.Name) and isinstance(a.value, ast.Call) and norm(a.value.func) == "next" \
+                    and len(a.value.args) == 2 and isinstance(a.value.args[0], (ast.GeneratorExp, ast.ListComp)) and isinstance(a.value.args[0].elt, ast.Name):
+                ge = a.value.args[0]
+                for g in ge.generators:
+                    if isinstance(g.iter, ast.Call) and norm(g.iter.func) == "enumerate" and isinstance(g.target, ast.Tuple) and g.target.elts and isinstance(g.target.elts[0], ast.Name) \
+                            and g.target.elts[0].id == ge.elt.id and not any(k.arg == "start" for k in g.iter.keywords) and len(g.iter.args) == 1:
+                        idx.add(a.targets[0].id)
+        if not idx:
+            continue
+        tests = []
+        for x in walk_no_nested(fn):
+            if isinstance(x, (ast.If, ast.While, ast.IfExp)):
+                tests.append(x.test)
+            elif isinstance(x, ast.Assert):
+                tests.append(x.test)
+
+        def bare(t):
+            while isinstance(t, ast.UnaryOp) and isinstance(t.op, ast.Not):
+                t = t.operand
+            if isinstance(t, ast.BoolOp):
+                return next((b for b in map(bare, t.values) if b), None)
+            if isinstance(t, ast.Call) and norm(t.func) == "bool" and len(t.args) == 1:
+                return bare(t.args[0])
+            return t.id if isinstance(t, ast.Name) and t.id in idx else None
+        for t in tests:
+            n += 1
+            v = bare(t)
+            if v:
+                rep.fail(rule, ct.mod.path.name, f"Tdf.{f.name}", t, f"`{norm(t)}` tests the table position `{v}` by truthiness: position 0 (the first slot) counts as not found, "
+                         "so a block stored there cannot be removed or replaced", construct=f"Tdf.{f.name} truthiness of position {v}")
+        rep.ok(rule, f"Tdf.{f.name}: positions found by search ({sorted(idx)}) are not tested by truthiness") if not any(bare(t) for t in tests) else None
+
+
 def removal_selects_type(ct: Container, rep, rule="removal-selects-type"):
     """remove_block(T) removes the block OF TYPE T (replace_block and the setters rely on it: removing another block leaves
     the old one in place and the following add is refused as a duplicate).  Every test that selects an entry of the table
@@ -752,6 +793,7 @@ def run(prog, rep):
     from .c08 import table_effects_need_writable
     rep.attempt(table_effects_need_writable, ct, rep)
     rep.attempt(removal_selects_type, ct, rep)
+    rep.attempt(position_not_by_truthiness, ct, rep)
     # a setter on a present type removes, then adds: the add must not refuse a comment / label that the field can hold (the text
     # primitive refuses exactly what does not fit), or the type silently disappears
     from .c13 import string_write_rules
